@@ -45,8 +45,8 @@ RULE = (
     'centres not judged).  Inverses (only when the forward result was '
     'right): date2num(getTimes()) == stored numbers (rtol 1e-12, atol 1 us '
     'in the unit; a raise inside netCDF4/cftime is counted, not judged) and '
-    'time2idx(getTimes()) == arange(n).  coordutil.gettimes is judged on '
-    'the same instants for the standard family.  ioapi: TFLAG files '
+    'time2idx(getTimes()) == arange(n).  coordutil.gettimes (functional '
+    'form, centres only) is judged on the same instants.  ioapi: TFLAG files '
     '(regular series and irregular rows), SDATE/STIME/TSTEP-only files, '
     'ioapi_base.from_arrays, each optionally passed through '
     'add_time_variables (CF time/time_bounds synthesised from the IOAPI '
@@ -75,6 +75,8 @@ EXHAUSTIVE_NOTE = ('thorough tier: every (year 1970-2100, day of year, hour '
                    '0-23) as TFLAG rows at minute/second patterns 00:00, '
                    '30:00, 59:59; quick tier: 27 selected days per year')
 _TIER = [None]
+
+CT.selftest()   # anchors of the independent calendar arithmetic (cheap)
 
 CALS = [None, 'standard', 'gregorian', 'proleptic_gregorian', 'noleap',
         '365_day', 'all_leap', '366_day']
@@ -160,7 +162,7 @@ def ref_dates(draw, lo=1900, hi=2100):
 def stored_values(draw, unit, dtype, n):
     per_day = {'days': 1, 'hours': 24, 'minutes': 1440, 'seconds': 86400}[
         unit]
-    span_days = draw(st.sampled_from([2, 40, 800, 73000]))
+    span_days = draw(st.sampled_from([8, 40, 800, 73000]))
     hi = span_days * per_day
     if dtype == 'i4':
         hi = min(hi, 2 ** 31 - 1)
@@ -173,26 +175,28 @@ def stored_values(draw, unit, dtype, n):
         if draw(st.booleans()):
             # whole days expressed in the unit
             ks = draw(st.lists(st.integers(lo // per_day, hi // per_day),
-                               min_size=1, max_size=n, unique=True))
+                               min_size=n, max_size=n, unique=True))
             vals = [k * per_day for k in ks]
         else:
-            vals = draw(st.lists(st.integers(lo, hi), min_size=1, max_size=n,
+            vals = draw(st.lists(st.integers(lo, hi), min_size=n, max_size=n,
                                  unique=True))
         vals = [int(v) for v in vals]
     elif style == 'dyadic':
-        ks = draw(st.lists(st.integers(lo * 8, hi * 8), min_size=1,
+        ks = draw(st.lists(st.integers(lo * 8, hi * 8), min_size=n,
                            max_size=n, unique=True))
         vals = [k / 8. for k in ks]
     else:
         # decimal fractions (not dyadic): k/1000 of the unit, so distinct
         # numbers are distinct instants at microsecond resolution
-        ks = draw(st.lists(st.integers(lo * 1000, hi * 1000), min_size=1,
+        ks = draw(st.lists(st.integers(lo * 1000, hi * 1000), min_size=n,
                            max_size=n, unique=True))
         vals = [k / 1000. for k in ks]
     if draw(st.integers(0, 3)) == 0:
         vals[0] = 0 if style == 'whole' else 0.0
     if dtype == 'f4':
         vals = [float(np.float32(v)) for v in vals]
+    if dtype == 'i4':
+        vals = [v for v in vals if -2 ** 31 <= v < 2 ** 31] or [0]
     vals = sorted(set(vals))
     return vals, style
 
@@ -214,8 +218,8 @@ def case_cf(draw):
         if famname == 'noleap' and (mo, d) == (2, 29):
             d = 28
     clean = fam == 'fixed' and draw(st.integers(0, 2)) == 0
-    tfmt = draw(st.sampled_from(['none', 'H', 'HM', 'HMS', 'HMS', 'HMS',
-                                 'HMSf']))
+    tfmt = draw(st.sampled_from(['none', 'none', 'H', 'H', 'HM', 'HM', 'HMS',
+                                 'HMS', 'HMS', 'HMS', 'HMSf']))
     h = mi = s = 0
     if tfmt != 'none' and not clean and draw(st.integers(0, 3)) != 0:
         h = draw(st.integers(0, 23))
@@ -228,12 +232,13 @@ def case_cf(draw):
         # day, the library an offset - and is not generated
         suffix = draw(st.sampled_from(['none', 'none', 'none', 'spcolon']))
     else:
-        suffix = draw(st.sampled_from(['none', 'none', 'none', 'Z', 'UTC',
-                                       'colon', 'plain', 'spcolon']))
+        suffix = draw(st.sampled_from(['none', 'none', 'none', 'none', 'Z',
+                                       'Z', 'UTC', 'UTC', 'colon', 'colon',
+                                       'plain', 'plain', 'spcolon']))
     off = 0
     if suffix in ('colon', 'plain', 'spcolon') and not clean:
         off = draw(st.sampled_from(OFFSETS))
-    sep = draw(st.sampled_from([' ', ' ', ' ', ' ', 'T']))
+    sep = draw(st.sampled_from([' '] * 9 + ['T']))
     pad = draw(st.sampled_from([True, True, True, False]))
     if clean:
         mo, d = 1, 1
@@ -241,7 +246,7 @@ def case_cf(draw):
     if clean and unit == 'seconds':
         unit = 'hours'
     dtype = draw(st.sampled_from(['f8', 'f8', 'f8', 'f4', 'i4', 'i8']))
-    n = draw(st.integers(1, 6))
+    n = draw(st.sampled_from([1, 2, 2, 3, 3, 4, 5, 6]))
     if clean:
         per_day = {'days': 1, 'hours': 24, 'minutes': 1440}[unit]
         ks = draw(st.lists(st.integers(-800, 73000), min_size=n, max_size=n,
@@ -265,7 +270,9 @@ def case_cf(draw):
                 e.append((vals[i - 1] + vals[i]) / 2.)
         if dtype in ('i4', 'i8'):
             e = [int(np.floor(x)) for x in e]
-            if len(set(e)) < len(e) or sorted(e) != e:
+            if len(set(e)) < len(e) or sorted(e) != e or (
+                    dtype == 'i4' and not all(-2 ** 31 <= x < 2 ** 31
+                                              for x in e)):
                 bounds = 'none'
                 e = None
         elif dtype == 'f4':
@@ -277,8 +284,8 @@ def case_cf(draw):
         vals = [vals[0] + i * step for i in range(n)]
         if dtype == 'f4':
             vals = [float(np.float32(v)) for v in vals]
-        if dtype == 'i4' and abs(vals[-1]) >= 2 ** 31:
-            vals = vals[:2]
+        if dtype == 'i4':
+            vals = [v for v in vals if -2 ** 31 <= v < 2 ** 31]
     return dict(kind='cf', ref=[y, mo, d, h, mi, s], off=off,
                 spell=dict(pad=pad, sep=sep, tfmt=tfmt, suffix=suffix),
                 unit=unit, calendar=cal, dtype=dtype, values=vals,
@@ -650,6 +657,12 @@ def check_cf(spec, r):
                     break
                 tol = 2 + int(abs(Fraction(wnum[i])) * CT.UNIT_US[unit] *
                               Fraction(1, 2 ** 50))
+                if bounds == 'derived' and spec['dtype'] == 'f4':
+                    # the half-step edges are formed in the variable's own
+                    # float32 arithmetic: one float32 ulp of the edge
+                    tol += int(Fraction(float(np.spacing(np.float32(
+                        max(abs(float(x)) for x in wnum))))) *
+                        CT.UNIT_US[unit]) + 1
                 if fam == 'standard':
                     base = CT.utc_reference(ref, spec['off'])
                     diff = abs(Fraction(CT.us_between(base, g)) - ex)
@@ -680,8 +693,10 @@ def check_cf(spec, r):
                         float(wnum[bad[0]]), bad[1], bad[2], bad[0],
                         'bounds' if bounds != 'none' else 'centres'),
                        klass='%s/%s' % (fam, sub))
-    if fam == 'standard':
-        # functional form
+    if forward_ok and want is not None:
+        r.label('forward-correct:' + fam)
+    if True:
+        # functional form (it has no bounds option: centres only)
         with np.errstate(all='ignore'):
             exc, got2 = attempt(gettimes, f)
         if exc is not None:
@@ -690,27 +705,46 @@ def check_cf(spec, r):
             r.label('gettimes-returned')
             g2 = _as_list(got2)
             ok = len(g2) == n
+            asstd = fam != 'standard' and ok
             if ok:
                 for g, (w, ex), v in zip(g2, centres, stored):
                     try:
                         g = _aware(g)
                     except TypeError:
-                        ok = False
+                        ok = asstd = False
                         break
                     tol = 2 + int(abs(Fraction(v)) * CT.UNIT_US[unit] *
                                   Fraction(1, 2 ** 50))
                     base = CT.utc_reference(ref, spec['off'])
-                    if abs(Fraction(CT.us_between(base, g)) - ex) > tol:
-                        ok = False
-                        break
+                    sdiff = abs(Fraction(CT.us_between(base, g)) -
+                                CT.value_us(v, unit))
+                    if fam == 'standard':
+                        if sdiff > tol:
+                            ok = False
+                            break
+                    else:
+                        # symptom of ignoring the calendar attribute: the
+                        # result is the proleptic-Gregorian decode
+                        if sdiff > tol:
+                            asstd = False
+                        gc = CT.datetime_to_cus(fam, g)
+                        if gc is None or abs(Fraction(gc) - ex) > tol:
+                            ok = False
             if not ok:
-                r.fail('cf-gettimes', 'coordutil.gettimes: units %r stored '
-                       '%r decoded as %s, true %s' % (
-                           units_of(spec), stored[:3],
-                           [_fmt(x) for x in g2[:3]],
-                           [_fmt(w) for w, _ in centres[:3]]),
-                       klass='tfmt=%s,suffix=%s' % (sp['tfmt'],
-                                                    sp['suffix']))
+                wtxt = [_fmt(w) if fam == 'standard' else
+                        '%04d-%02d-%02d %02d:%02d:%02d.%06d' %
+                        CT.from_cus(fam, w) for w, _ in centres[:3]]
+                r.fail('cf-gettimes', 'coordutil.gettimes: units %r '
+                       'calendar %r stored %r decoded as %s, true %s' % (
+                           units_of(spec), spec['calendar'], stored[:3],
+                           [_fmt(x) for x in g2[:3]], wtxt),
+                       klass=('tfmt=%s,suffix=%s' % (sp['tfmt'],
+                                                     sp['suffix'])
+                              if fam == 'standard' else
+                              fam + ('/decoded-as-gregorian' if asstd
+                                     else '/other')))
+            elif fam != 'standard':
+                r.label('gettimes-correct:' + fam)
     if not forward_ok:
         return
     # ---- inverses on the centres
@@ -1086,3 +1120,6 @@ known.register('C12-synth-tstep100h', lambda spec, f:
                spec['tstep'] >= 1000000 and f.clause == 'ioapi-instant' and
                f.klass.startswith('synth/') and
                f.klass.endswith('/tstep>=100h'))
+known.register('C12-gettimes-calendar', lambda spec, f: _fixed(spec) and
+               f.clause == 'cf-gettimes' and
+               f.klass.endswith('/decoded-as-gregorian'))
